@@ -654,6 +654,11 @@ func init() {
 				rej = 25
 			}
 			devScenario(g, p, tier, ScenOpts{MaxOps: 4, PoisonPct: 8, DelPct: 40, RollbackPct: 15, BadRollbackPct: 20, AsyncPct: 40, MultiPct: 30, PipelinePct: 50, DevRejectPct: rej})
+			if g.chance(1, 6) {
+				// histories piled onto one sub-tree (nested deletes, re-creation, unrelated commits): what a re-synchronisation
+				// has to reproduce from tombstones and live values
+				p.Scenario = g.LadderScenario(p.Knobs.Targets[0], 12)
+			}
 			p.Knobs.ConnLate = map[string]bool{}
 			p.Knobs.NoDevice = map[string]bool{}
 			for _, t := range p.Knobs.Targets {
